@@ -26,7 +26,7 @@ type c04Case struct {
 
 func c04Sizes(tier string) (units, per int) {
 	if tier == "thorough" {
-		return 3000, 40
+		return 40000, 40
 	}
 	return 400, 40
 }
